@@ -161,3 +161,36 @@ Theorem error_offset_in_input :
               (0 <= pos z <= len d -> k = pos z).
 Proof. exact error_offset_in_input_proof. Qed.
 Print Assumptions error_offset_in_input.
+
+(* ---- error offsets of the modelled parsers (theorems of their own models, collected here) ---------------- *)
+From Verif Require Common.Lx Json.Model Json.Lex Json.Spec Json.Proofs Json.Trace Json.Accept Json.Rejects Xml.Model Xml.Step Xml.Proofs.
+
+Module JsonErrors.
+  Import Verif.Common.Lx Verif.Json.Model Verif.Json.Lex Verif.Json.Spec Verif.Json.Proofs Verif.Json.Trace Verif.Json.Accept Verif.Json.Rejects.
+  (* every parse error the JSON parser records has 0 <= offset <= len d and is the cursor offset at which the call stopped *)
+  Theorem json_error_offset_in_input :
+    forall d n tr, trace n (json_init d) = Some tr -> errs_ok d None tr.
+  Proof. exact json_error_offset_range_proof. Qed.
+  Print Assumptions json_error_offset_in_input.
+  (* a byte that cannot start a token is reported at exactly its offset, in every context (any stack, any needComma):
+     this is the "single illegal character inserted between two tokens" clause for JSON, per call *)
+  Theorem json_error_at_illegal_byte :
+    forall p a tok lead c r nd state,
+      cur3 (pz p) a tok (lead ++ c :: r) -> lead_ok p lead nd -> top (pst p) = Some state -> prd p = 0 ->
+      illegal_start c ->
+      rejected_at p (len a + len tok + len lead).
+  Proof. exact error_at_illegal_byte_proof. Qed.
+  Print Assumptions json_error_at_illegal_byte.
+End JsonErrors.
+
+Module XmlErrors.
+  Import Verif.Common.Lx Verif.Xml.Model Verif.Xml.Step Verif.Xml.Proofs.
+  (* the XML lexer's only parse error (embedded NUL) is reported at exactly the offset of the first NUL *)
+  Theorem xml_error_offset_is_first_nul :
+    forall d p, 0 <= p < len d -> getz d p = 0 -> (forall i, 0 <= i < p -> getz d i <> 0) ->
+      (forall s, reach d s -> lpos (xr s) <= p) /\
+      (forall s tok s', reach d s -> next s = Some (TError, tok, s') -> lpos (xr s') = p /\ xml_err s' = 2) /\
+      (exists n s tok s', (n <= Z.to_nat p)%nat /\ after n (xml_init d) = Some s /\ next s = Some (TError, tok, s')).
+  Proof. exact xml_nul_is_error_proof. Qed.
+  Print Assumptions xml_error_offset_is_first_nul.
+End XmlErrors.
